@@ -117,6 +117,7 @@ def cases() -> Any:
         "codec": st.sampled_from(["json", "json", "pickle", "jsonfmt"]),
         "is_async": st.booleans(),
         "wrapped": st.sampled_from([False, False, True]),
+        "retried": st.sampled_from([False, False, True]),
         # parameter names p0, p1, ... or names the library itself uses for its own arguments / locals on the way to the call
         "naming": st.sampled_from(["p", "p", "internal"]),
         "late_register": st.sampled_from([False, False, True]),
@@ -312,7 +313,8 @@ def run_case(c: Dict[str, Any]) -> Outcome:
             AsyncBroker.global_task_registry.pop("t", None)
             AsyncSharedBroker().register_task(ns["shadow_task"], task_name="t")
         r = r_early or Receiver(b, executor=Inline(), validate_params=validate, max_async_tasks=5, run_startup=False)
-        k = AsyncKicker("t", b, {"lbl": 1, "s": "x"}).with_task_id("T")
+        # (optionally the delivery is a RETRY of an earlier failed one: the retry middleware's `_retries` label is on it - conversion is due all the same)
+        k = AsyncKicker("t", b, {"lbl": 1, "s": "x", **({"_retries": 2} if c.get("retried") else {})}).with_task_id("T")
         m = k._prepare_message(*args, **kwargs)
         wire = b.formatter.dumps(m).message
         first = b.formatter.loads(wire)
